@@ -30,7 +30,10 @@ RULE_TEXT = (
     "line and column, spellings, maximal munch, integer payload = Wide!Parse) and emits the expected items; both real "
     "lexers are run on every text and kinds, payload limbs, suffix types, identifier / string bytes, spans, line, column "
     "and error codes are compared with the rule, and the two lexers with each other (kinds, values, codes; `return` and "
-    "per-byte E110 excepted). Second enumerated family (MC_LexPairs): every ordered pair of representative token spellings "
+    "per-byte E110 excepted). Family MC_LexAlias: for 26 lexically significant ASCII bytes b the scalar values b + 2^8, b + 2^10 "
+    "(thorough: also b + 2^13, b + 2^16; their low byte / low seven bits are b) after an identifier, keyword, integer, suffix, "
+    "radix prefix, inside literals and comments, at both ends of the text (16 prefixes x 8 suffixes). "
+    "Second enumerated family (MC_LexPairs): every ordered pair of representative token spellings "
     "(80 quick / 173 thorough: every operator, keyword, type, identifier / integer / char / string spelling class incl. 128-bit "
     "literals and all suffixes) joined by 8 separators (nothing, space, tab, LF, CRLF, comments, mixed). Thorough only: random texts of 5..12 symbols "
     "by TLC simulation (sampled, not exhaustive). impl->spec: random token soups in random spellings/layouts (all token kinds, boundary "
@@ -219,6 +222,13 @@ def run_enumeration(rep, tier, tally, seed=1):
         (cfg, r.distinct, len(r.cases), r.wall, "tiling invariants hold" if r.ok else "INVARIANT VIOLATED"))
     stats["pair_texts"] = len(r.cases)
     absorb(r, "pairs")
+    # third family: characters outside ASCII whose truncated code point aliases a lexical class, in every position
+    cfg = "MC_LexAlias_%s.cfg" % tier
+    r = common.tlc("MC_LexAlias", cfg, workers=6, timeout=1700, heap="4g", tag="C14-mc-alias", keep_output=False)
+    log("[tlc] MC_LexAlias/%s: %d states, %d texts with a class-aliasing character, %.1fs, %s" %
+        (cfg, r.distinct, len(r.cases), r.wall, "tiling invariants hold" if r.ok else "INVARIANT VIOLATED"))
+    stats["alias_texts"] = len(r.cases)
+    absorb(r, "alias")
     return stats
 
 
@@ -430,6 +440,7 @@ def run(rep, tier, seed, selftest):
         "max_symbols": 3 if tier == "quick" else 4,
         "tlc_runs": stats["runs"],
         "token_pair_texts": stats.get("pair_texts", 0),
+        "class_aliasing_character_texts": stats.get("alias_texts", 0),
         "scaled_texts": big,
         "windows_of_long_random_texts": info["windows_of_long_texts"],
         "longest_random_text_bytes": info["longest_text"],
